@@ -478,8 +478,16 @@ class ServiceInfo(RecordUpdateListener):
         """
         new_records_futures = self._new_records_futures
         updated: bool = False
+        server_key = self.server_key
         for record_update in records:
             updated |= self._process_record_threadsafe(zc, record_update.new, now)
+        if self.server_key != server_key:
+            # The SRV record that names the host came after address records of
+            # that host in the same packet: they were passed over above and are
+            # not in the cache yet either, so look at them again
+            for record_update in records:
+                if type(record_update.new) is DNSAddress:
+                    updated |= self._process_record_threadsafe(zc, record_update.new, now)
         if updated and new_records_futures:
             _resolve_all_futures_to_none(new_records_futures)
 
